@@ -46,6 +46,9 @@ NB_SLICES = ('nb_slices', 'nb_slices', 'all stacks of depth<=4 over {a,bb} x all
 NB_PEG_D1 = ('nb_peg', 'nb_peg_d1', 'PUSH(a) ~ ((POP? ~ b) | PEEK); all strings<=6 chars over {a,b}', 'q')
 NB_GEN = ('derive:nb_gen', 'nb_gen_vs_pest', 'generated parser vs pest: 18 rules (all kinds/operators) x all strings<=5 chars over 3 alphabets', 'Q')
 NB_GEN_T = ('derive:nb_gen', 'nb_gen_vs_pest', 'generated parser vs pest: 18 rules x all strings<=7 chars over 3 alphabets', 't', {'VERIF_NB_L': '7'})
+NB_GEN_SKIPTOK = ('derive:nb_gen', 'nb_gen_skip_tokens', 'generated parser vs pest, grammar with NON-silent WHITESPACE/COMMENT: 5 rules x all strings<=6 tokens over 2 alphabets', 'q')
+NB_GEN_COMMENT_INNER = ('derive:nb_gen', 'nb_gen_comment_inner', 'non-silent COMMENT mentioning a non-silent rule: all strings<=5 tokens', 'q')
+NB_LEAF = ('nb_peg', 'nb_leaf_contents', 'leaf contents on all strings<=3 chars over 10 characters (1-4 bytes, CR, LF)', 'q')
 NB_GEN_SUB = ('derive:nb_gen', 'nb_gen_subinput', 'generated parser: 7 rules x all strings<=4 chars over 2 alphabets x all sub-ranges (Span/Position vs fresh copy)', 'Q')
 NB_GEN_SUB_T = ('derive:nb_gen', 'nb_gen_subinput', 'generated parser: 7 rules x all strings<=6 chars x all sub-ranges', 't', {'VERIF_NB_L': '6'})
 K_PEG = [
@@ -68,7 +71,7 @@ PROPS = {
         'verus': ['comb', 'choice', 'nodes', 'seqchk', 'repchk', 'wrappers', 'leaf', 'input'],
         'expanded': True,
         'kani': K_PEG,
-        'native': NB_PEG + [NB_PEG_D1, NB_GEN, NB_GEN_T],
+        'native': NB_PEG + [NB_PEG_D1, NB_GEN, NB_GEN_T, NB_GEN_SKIPTOK],
         'assumptions': ['sem (PEG denotation with full backtracking, failing empty-stack operations) is pest\'s behaviour where pest is defined',
                         'generator translation of the grammar into the combinator type tree is not verified (DESIGN.md §6)'],
     },
@@ -80,7 +83,7 @@ PROPS = {
         'verus': [],
         'expanded': False,
         'kani': [],
-        'native': [NB_GEN, NB_GEN_T],
+        'native': [NB_GEN, NB_GEN_T, NB_GEN_SKIPTOK, NB_GEN_COMMENT_INNER],
         'explanation': 'Every (rule, input) pair within the bound is parsed by the pest-generated and the pest-typed-generated parser; trees are compared after pruning atomic tokens in the pest tree. obligations/discharged are zero: nothing is proved beyond the bound.',
         'assumptions': ['pest is the reference'],
     },
@@ -92,7 +95,7 @@ PROPS = {
         'verus': ['comb', 'choice', 'nodes', 'seqchk', 'repchk', 'wrappers', 'leaf'],
         'expanded': True,
         'kani': K_PEG,
-        'native': NB_PEG + [NB_GEN, NB_GEN_T],
+        'native': NB_PEG + [NB_GEN, NB_GEN_T, NB_GEN_SKIPTOK],
         'assumptions': ['R1 (tracker erasure) is behaviour-preserving for match/offset/stack results'],
     },
     'C04': {
@@ -103,7 +106,7 @@ PROPS = {
         'verus': ['wrappers'],
         'expanded': False,
         'kani': [],
-        'native': [NB_GEN, NB_GEN_T],
+        'native': [NB_GEN, NB_GEN_T, NB_GEN_SKIPTOK],
         'assumptions': [],
     },
     'C05': {
@@ -144,7 +147,7 @@ PROPS = {
         'verus': ['seqchk', 'repchk', 'wrappers'],
         'expanded': True,
         'kani': K_PEG,
-        'native': NB_PEG + [NB_GEN, NB_GEN_T],
+        'native': NB_PEG + [NB_GEN, NB_GEN_T, NB_GEN_SKIPTOK],
         'assumptions': ['which of 0 / 1 / INHERITED reaches each rule reference is decided by generator code outside the verified set'],
     },
     'C08': {
@@ -188,7 +191,7 @@ PROPS = {
         'verus': ['tracker', 'wrappers'],
         'expanded': False,
         'kani': [],
-        'native': [NB_GEN, NB_GEN_T],
+        'native': [NB_GEN, NB_GEN_T, NB_GEN_SKIPTOK],
         'assumptions': ['contracts of Tracker::clear / get_entry / record are assumed (BTreeMap has no vstd model)',
                         'truthfulness of expected/unexpected rule lists is not decided (only location, bounds, rendering, determinism within the bound)'],
     },
@@ -246,7 +249,7 @@ PROPS = {
         'verus': [],
         'expanded': False,
         'kani': [],
-        'native': [NB_GEN, NB_GEN_T],
+        'native': [NB_GEN, NB_GEN_T, NB_GEN_SKIPTOK],
         'explanation': 'The traversal helpers are run on the real tree of every accepted (rule, input) pair within the bound and compared with a recursive reference traversal written in the test.',
         'assumptions': [],
     },
@@ -291,6 +294,7 @@ PROPS = {
         ],
         'native': [
             ('nb_peg', 'nb_acc_rep', 'iter_matched / into_iter_matched / iter_all of RepMin and RepMinMax on all strings<=7 chars over {a,b,space}', 'q'),
+            NB_LEAF,
         ],
         'assumptions': ['match_choices! (generator crate proc macro) is outside the verified set'],
     },
